@@ -142,6 +142,14 @@ def discharge_unwrap(F, fn, A, pm, node, inst):
                                         if i_.get("callee") == "core::str::error::Utf8Error::valid_up_to" and H.local_id(i_["recv"]) in ebind:
                                             return "str-cap", "valid_up_to() <= n = min(_, %s) bytes into String<%s>" % (cap, cap)
             return None, "string source is not bounded by the capacity"
+    # --- loop-cap bound spelled u32::try_from(N).unwrap()
+    if recv.get("k") in ("mcall", "call") and recv.get("callee") == "core::convert::TryFrom::try_from" and (recv.get("targs") or ["", ""])[:2] == ["u32", "usize"]:
+        k = const_or_lit(A, H.call_args(recv)[0])
+        if k and k[0] == "param":
+            m = re.findall(r", (\d+)>$", inst["name"].split("::{closure")[0])
+            if m and int(m[-1]) <= 0xFFFFFFFF:
+                return "loop-cap", "loop bound %s = %s fits u32" % (k[1], m[-1])
+        return None, "usize -> u32 conversion of a value that is not an instantiated capacity"
     # --- min-cap
     if recv.get("k") == "call" and (recv.get("callee") or "").endswith("Bytes::<N>::from_slice"):
         cap = (recv.get("targs") or [""])[0]
@@ -171,10 +179,10 @@ def discharge_unwrap(F, fn, A, pm, node, inst):
                 mx = H.strip(call["args"][1])
                 okmax = False
                 if mx.get("k") == "call" and mx.get("ctor") == "core::option::Option::Some":
-                    inner = H.strip(mx["args"][0])
+                    inner = H.strip(A.subst(mx["args"][0]))       # through `let max = ..;`
                     if inner.get("k") == "mcall" and inner.get("callee") == UNWRAP:
                         ti = H.strip(inner["recv"])
-                        k = const_or_lit(A, H.call_args(ti)[0]) if ti.get("callee") == TRY_INTO else None
+                        k = const_or_lit(A, H.call_args(ti)[0]) if ti.get("callee") == TRY_INTO or (ti.get("callee") == "core::convert::TryFrom::try_from" and (ti.get("targs") or [""])[0] == "u32") else None
                         okmax = k is not None and k[0] == "param"
                 vec_id = H.local_id(recv["recv"])
                 init = A.env.get(vec_id)
@@ -188,6 +196,58 @@ def discharge_unwrap(F, fn, A, pm, node, inst):
                     return "loop-cap", "at most %s pushes into a fresh Vec<_, %s>" % (k[1], k[1])
         return None, "push is not bounded by an arbitrary_loop maximum equal to the capacity"
     return None, "unwrap of an unrecognised fallible operation"
+
+
+def sym_fits_rule(F, fn, node):
+    """unwrap of `<fresh Bytes<N>>.extend_from_slice(u.bytes(X)?)` / `Bytes::<N>::from_slice(u.bytes(X)?)`, on the path summaries of
+    the function: on every path that reaches it, X is the capacity parameter N itself, min(_, N), or a value the path has
+    compared as `X <= N` (arbitrary's bytes(X) returns exactly X bytes).  (rule, detail) | (None, why) | (None, None) = not this shape"""
+    from . import sym as S
+    recv = H.strip(node["recv"])
+    m = (recv.get("callee") or "").split("::")[-1]
+    if recv.get("k") not in ("call", "mcall") or m not in ("extend_from_slice", "from_slice"):
+        return None, None
+    try:
+        sy = S.Sym(F, fn, is_effect=lambda c, a, n, st: n is recv, inline=lambda path, n: False)
+        paths = sy.run()
+    except S.TooManyPaths:
+        return None, "too many paths"
+    evs = [(p, e) for p in paths for e in p.effects if e.node is recv]
+    if not evs:
+        return None, "the append is not reached on the path summaries"
+    new_nodes = {x.get("sp"): x for x in H.walk(fn["body"]) if x.get("k") in ("call", "mcall")}
+    caps = set()
+    for p, e in evs:
+        if m == "from_slice":
+            ty = (recv.get("targs") or [""])[0]
+            capname = ty if re.match(r"^\w+$", ty) else None
+            src = e.args[0]
+        else:
+            dest = e.args[0]
+            if not (dest[0] == "call" and not dest[2] and dest[1].split("::")[-1] == "new"):
+                return None, "the destination is not a fresh container"
+            if [x for x in p.effects if x is not e and x.args and x.args[0] == dest]:
+                return None, "the destination is written more than once"
+            dn = new_nodes.get((dest[3] if len(dest) > 3 else "").split("@")[0]) or {}
+            mm = re.search(r"<(\w+)>$", dn.get("ty") or "")
+            capname = mm.group(1) if mm else None
+            src = e.args[1]
+        if capname is None or not capname[0].isupper():
+            return None, "the capacity of the destination is not a const parameter"
+        cap_terms = [(k, fn["path"] + "::" + capname) for k in ("path", "const")]
+        if not (src[0] == "proj" and src[2] == S.OK and src[1][0] == "call" and src[1][1] == BYTES and len(src[1][2]) == 2):
+            return None, "the source is not u.bytes(X)?"
+        X = src[1][2][1]
+        ok = X in cap_terms or (X[0] == "call" and X[1].split("::")[-1] == "min" and len(X[2]) == 2 and (X[2][0] in cap_terms or X[2][1] in cap_terms))
+        for a in p.atoms[:e.natoms]:
+            if a[0] == "true" and a[1][0] == "bin":
+                op, l, r, pol = a[1][1], a[1][2], a[1][3], a[2]
+                if (op == "<=" and l == X and r in cap_terms and pol) or (op == "<" and l in cap_terms and r == X and not pol):
+                    ok = True
+        if not ok:
+            return None, "u.bytes(%s) is appended to a container of capacity %s without %s <= %s being known on the path" % (S.show(X)[:40], capname, S.show(X)[:30], capname)
+        caps.add(capname)
+    return "fits-paths", "on all %d paths the bytes drawn number at most the capacity %s" % (len(evs), sorted(caps)[0])
 
 
 def sym_prefix_rule(F, fn):
@@ -368,8 +428,16 @@ def run(ctx):
                     nodes = [x for x in node_at(fn, ev["sp"]) if x.get("callee") == "core::str::converts::from_utf8_unchecked"]
                     if len(nodes) == 1:
                         rule, detail = utf8_prefix(fn, A, nodes[0])
-                elif inst["def"] == "arbitrary::arbitrary_byte_array" and (kind.startswith("cast:") or kind in ("rawderef", "assert:misaligned", "assert:null_deref")):
+                elif inst["def"] == "arbitrary::arbitrary_byte_array" and (kind.startswith("cast:") or kind in ("rawderef", "assert:misaligned", "assert:null_deref", "call:core::ptr::from_ref", "call:core::ptr::const_ptr::<impl *const T>::cast")):
                     rule, detail = transparent_cast(F, fn, A, ev, kind)
+                if rule is None and kind == "call:" + UNWRAP:
+                    nodes = [x for x in node_at(fn, ev["sp"]) if x.get("k") == "mcall" and x.get("callee") == UNWRAP]
+                    if len(nodes) == 1:
+                        r2, d2 = sym_fits_rule(F, fn, nodes[0])
+                        if r2 is not None:
+                            rule, detail = r2, d2
+                        elif d2 is not None:
+                            detail = "%s; on the path summaries: %s" % (detail, d2)
                 if rule is None and (kind == "call:" + UNWRAP or kind == "call:core::str::converts::from_utf8_unchecked" or (kind.startswith("dep-api:") and "heapless::string::String<N> as core::convert::From<&'a str>" in kind)):
                     # other spellings of the same generator: decided on the path summaries of the whole function
                     if fn["id"] not in sym_cache:
@@ -491,16 +559,32 @@ def transparent_cast(F, fn, A, ev, kind):
     transparent = ba["repr"].get("transparent") and len(fields) == 1 and fields[0]["ty"]["s"] == "[u8; N]"
     if not transparent:
         return None, "ByteArray<N> is not repr(transparent) over [u8; N] (repr=%s, fields=%s)" % (ba["repr"], [f["ty"]["s"] for f in fields])
-    casts = [x for x in H.walk(fn["body"]) if x.get("k") == "cast"]
+    PTR_CAST = "core::ptr::const_ptr::<impl *const T>::cast"
+    FROM_REF = "core::ptr::from_ref"
+    steps_all = [x for x in H.walk(fn["body"]) if x.get("k") == "cast" or x.get("callee") in (PTR_CAST, FROM_REF)]
     derefs = [x for x in H.walk(fn["body"]) if x.get("k") == "unary" and x["op"] == "deref" and (x["e"].get("ty") or "").startswith("*")]
-    if not (len(casts) == 2 and len(derefs) == 1):
-        return None, "expected exactly two casts and one raw dereference, found %d / %d" % (len(casts), len(derefs))
-    outer = H.strip(derefs[0]["e"])
-    inner = H.strip(outer["e"]) if outer.get("k") == "cast" else {}
-    src = A.subst(inner.get("e", {})) if inner.get("k") == "cast" else {}
-    ok = outer.get("ty") == "*const serde_bytes::bytearray::ByteArray<N>" and inner.get("ty") == "*const [u8; N]" and inner.get("from") == "&[u8; N]"
+    if len(derefs) != 1:
+        return None, "expected exactly one raw dereference, found %d" % len(derefs)
+    # the pointer chain under the dereference, outermost first: `as` casts, ptr::from_ref(..), <*const T>::cast::<U>()
+    chain = []
+    cur = H.strip(A.subst(derefs[0]["e"]))
+    for _ in range(6):
+        if cur.get("k") == "cast":
+            chain.append((cur.get("from"), cur.get("ty"), cur))
+            cur = H.strip(A.subst(cur["e"]))
+        elif cur.get("callee") == PTR_CAST and cur.get("k") == "mcall":
+            chain.append(((cur["recv"].get("ty") or H.strip(A.subst(cur["recv"])).get("ty")), cur.get("ty"), cur))
+            cur = H.strip(A.subst(cur["recv"]))
+        elif cur.get("callee") == FROM_REF and H.call_args(cur):
+            arg = H.strip(A.subst(H.call_args(cur)[0]))
+            chain.append((H.call_args(cur)[0].get("ty") or arg.get("ty"), cur.get("ty"), cur))
+            cur = arg
+        else:
+            break
+    tys = [(f, t) for f, t, _ in reversed(chain)]
+    ok = len(chain) == 2 and len(steps_all) == 2 and tys == [("&[u8; N]", "*const [u8; N]"), ("*const [u8; N]", "*const serde_bytes::bytearray::ByteArray<N>")]
     if not ok:
-        return None, "cast chain is %s -> %s -> %s" % (inner.get("from"), inner.get("ty"), outer.get("ty"))
+        return None, "pointer chain is %s (and %d cast-like expressions in the function); expected &[u8; N] -> *const [u8; N] -> *const ByteArray<N>" % (tys, len(steps_all))
     if kind.startswith("cast:"):
         f, t = ev["from"]["s"], ev["to"]["s"]
         allowed = [("*const [u8; 32]", "*const serde_bytes::bytearray::ByteArray<32>"), ("*const serde_bytes::bytearray::ByteArray<32>", "*const ()"), ("*const ()", "usize")]
